@@ -355,6 +355,7 @@ struct MarcusCase {
   double a1, b1, a2, b2;          // U_nX_nN, U_xN_xX of both segments
   double lambda_outer;
   double J2;
+  long id1 = 0, id2 = 1;  // segment ids, in either order (a pair may be created with the higher id first)
 };
 static std::string mjson(const MarcusCase &c) {
   J j;
@@ -362,17 +363,26 @@ static std::string mjson(const MarcusCase &c) {
       .vec("R_bohr", std::vector<double>{c.Rv.x(), c.Rv.y(), c.Rv.z()})
       .d("EMpoles1", c.emp1).d("EMpoles2", c.emp2).d("U_xX_nN_1", c.uxx1).d("U_xX_nN_2", c.uxx2)
       .d("U_nX_nN_1", c.a1).d("U_xN_xX_1", c.b1).d("U_nX_nN_2", c.a2).d("U_xN_xX_2", c.b2)
-      .d("lambda_outer", c.lambda_outer).d("Jeff2", c.J2);
+      .d("lambda_outer", c.lambda_outer).d("Jeff2", c.J2).i("segment_id_1", c.id1).i("segment_id_2", c.id2);
   return j.str();
 }
-static Rate_Engine::PairRates marcus_rates(const MarcusCase &c, double J2) {
+// view: 0 = the pair kept (seg1, seg2, R) as handed in; 1 = it holds (seg2, seg1, -R), a consistent mirrored
+// description of the same pair (rate12 then belongs to the hop seg2 -> seg1); 2 = anything else
+static Rate_Engine::PairRates marcus_rates(const MarcusCase &c, double J2, int *view = nullptr) {
   QMStateType st((QMStateType::statetype)c.state);
-  Segment s1("s1", 0), s2("s2", 1);
+  Segment s1("s1", c.id1), s2("s2", c.id2);
   s1.setEMpoles(st, c.emp1); s2.setEMpoles(st, c.emp2);
   s1.setU_xX_nN(c.uxx1, st); s2.setU_xX_nN(c.uxx2, st);
   s1.setU_nX_nN(c.a1, st); s1.setU_xN_xX(c.b1, st);
   s2.setU_nX_nN(c.a2, st); s2.setU_xN_xX(c.b2, st);
   QMPair pair(0, &s1, &s2, c.Rv);
+  if (view) {
+    const bool same = pair.Seg1() == &s1 && pair.Seg2() == &s2, swapped = pair.Seg1() == &s2 && pair.Seg2() == &s1;
+    const Eigen::Vector3d Rp = pair.R();
+    if (same && Rp == c.Rv) *view = 0;
+    else if (swapped && Rp == Eigen::Vector3d(-c.Rv)) *view = 1;
+    else *view = 2;
+  }
   pair.setJeff2(J2, st);
   pair.setLambdaO(c.lambda_outer, st);
   Rate_Engine eng(c.kT, c.F);
@@ -410,6 +420,10 @@ static MarcusCase gen_marcus(vfh::Rng &r, bool outer) {
   }
   c.lambda_outer = outer ? r.logu(0.001, 1.0) * ev2hrt : 0.0;
   c.J2 = std::pow(r.logu(1e-7, 1e-1) * ev2hrt, 2);
+  // ids: ascending, descending, far apart, adjacent (the wrap pair "last site -> site 0" has the higher id first)
+  c.id1 = (long)r.range(0, 40); c.id2 = (long)r.range(0, 40);
+  if (c.id1 == c.id2) c.id2 = c.id1 + 1;
+  if (r.coin(0.2)) { c.id1 = (long)r.range(1, 2000); c.id2 = 0; }
   return c;
 }
 
@@ -435,8 +449,15 @@ static void run_marcus(vfh::Reporter &R, vfh::Rng &r, long n, bool outer) {
     Rate_Engine::PairRates k, k2;
     double cfac = r.coin(0.3) ? std::ldexp(1.0, (int)r.range(-8, 8)) : r.logu(1e-3, 1e3);
     try {
-      k = marcus_rates(c, c.J2);
+      int view = 0;
+      k = marcus_rates(c, c.J2, &view);
       k2 = marcus_rates(c, c.J2 * cfac);
+      R.counter(c.id1 > c.id2 ? "pairs_created_with_higher_id_first" : "pairs_created_with_lower_id_first");
+      if (view == 2) {
+        R.violation(kp + "pair-geometry-inconsistent", "QMPair(seg1, seg2, R) holds neither (seg1, seg2, R) nor the mirrored (seg2, seg1, -R): R no longer points from its first to its second segment", J().raw("case", mjson(c)));
+        continue;
+      }
+      if (view == 1) { std::swap(k.rate12, k.rate21); std::swap(k2.rate12, k2.rate21); R.counter("pairs_held_mirrored"); }
     } catch (const std::exception &ex) {
       R.violation(kp + "throws", "Rate_Engine::Rate threw for positive reorganisation energies", J().raw("case", mjson(c)).s("exception", ex.what()));
       continue;
